@@ -96,7 +96,7 @@ M = [
  ("M090", ["C14"], TK + "ctrl_if.py", "\t\ttry:\n\t\t\tdata = data.decode()\n\t\texcept UnicodeDecodeError:\n\t\t\tlog.error(\"Non-text data on TRXC interface\")\n\t\t\treturn\n", "\t\tdata = data.decode()\n", "original: non-UTF-8 control datagram raises out of the main loop"),
  ("M091", ["C14"], TK + "ctrl_if.py", "\t\texcept ValueError:\n\t\t\tlog.error(\"Malformed TRXC command", "\t\texcept KeyError:\n\t\t\tlog.error(\"Malformed TRXC command", "original: non-numeric argument raises out of the main loop"),
  ("M092", ["C14"], TK + "data_msg.py", "\t\tif len(msg) < self.HDR_LEN:\n\t\t\traise ValueError(\"Message is to short: missing version specific header\")\n", "", "short datagrams reach the header parser (IndexError / struct.error instead of ValueError)"),
- ("M093", ["C14", "C15"], TK + "data_dump.py", "\t\t\tmsg.parse_msg(msg_raw)\n\t\texcept:\n", "\t\t\tmsg.parse_msg(msg_raw)\n\t\texcept IndexError:\n", "capture reader lets parser errors escape"),
+ ("M093", ["C14"], TK + "data_dump.py", "\t\t\tmsg.parse_msg(msg_raw)\n\t\texcept:\n", "\t\t\tmsg.parse_msg(msg_raw)\n\t\texcept IndexError:\n", "capture reader lets parser errors escape"),
  ("M094", ["C14"], TK + "fake_trx.py", "\t\t\t(base, threshold) = (int(request[1]), int(request[2]))\n\t\t\tself.toa256_base = base\n\t\t\tself.toa256_rand_threshold = threshold", "\t\t\tself.toa256_base = int(request[1])\n\t\t\tself.toa256_rand_threshold = int(request[2])", "original: FAKE_TOA applies the base before the threshold is parsed"),
  ("M095", ["C14", "C03"], TK + "data_if.py", "\t\tif not self.match_hdr_ver(msg):\n\t\t\treturn None\n\n\t\treturn msg\n\n\tdef recv_rx_msg", "\t\tself.match_hdr_ver(msg)\n\n\t\treturn msg\n\n\tdef recv_rx_msg", "bursts with a non-negotiated header version are queued"),
  ("M096", ["C14", "C12"], TK + "transceiver.py", "\t\t\t\t\"is not running => dropping...\" % (self, msg.desc_hdr()))\n\t\t\treturn None\n", "\t\t\t\t\"is not running => dropping...\" % (self, msg.desc_hdr()))\n", "bursts are queued while powered off"),
